@@ -56,18 +56,23 @@ Record start_case := SC {
   sc_table : list (key * val);
   sc_teardown : list nat }.
 
+(* the model has run to quiescence (its fuel was sufficient): nothing internal is left to do *)
+Definition quiescent_b (P : prog) (s : st) : bool :=
+  negb (is_running s) ||
+  match first_silent P s (seq 0 (length P)) with None => negb (Nat.eqb (rank (ph s 0)) 4) | Some _ => false end.
+
 Fixpoint run_steps (P : prog) (s : st) (steps : list (gate * (list gate * list obs))) : bool * st :=
   match steps with
   | [] => (true, s)
   | (g, (en, batch)) :: r =>
       let '(s', o) := fire P s g in
-      if list_eqb gate_eqb (enabled P s) en && mset_eqb obs_eqb o batch
+      if list_eqb gate_eqb (enabled P s) en && mset_eqb obs_eqb o batch && quiescent_b P s'
       then run_steps P s' r else (false, s')
   end.
 
 Definition check_start (c : start_case) : bool :=
   let '(s0, o0) := init (sc_prog c) (sc_timeout c) in
-  mset_eqb obs_eqb o0 (sc_first c) &&
+  mset_eqb obs_eqb o0 (sc_first c) && quiescent_b (sc_prog c) s0 &&
   let '(ok, s) := run_steps (sc_prog c) s0 (sc_steps c) in
   ok && final_ok (status_of s) (sc_final c)
   && mset_eqb kv_eqb (visible s) (sc_table c)
